@@ -145,8 +145,14 @@ func Families(r *rand.Rand, alpha, vectors []string, exhLen, nMut, nRand int) []
 	for i := 0; i < nRand; i++ {
 		rnd = append(rnd, Random(r, alpha, vectors, 64))
 	}
+	// long values cross the runtime's output buffer size (4096), where
+	// buffering fast paths and flush ordering live
+	var long []string
+	for _, n := range []int{4000, 4095, 4096, 4097, 4200, 8191, 8193, 20000} {
+		long = append(long, strings.Repeat("x", n), strings.Repeat("ab<c&d\"e'f>", n/11+1)[:n])
+	}
 	fams := []Family{{"every_byte", bytesF}, {"code_points", cps}, {"exhaustive", Exhaustive(alpha, exhLen)},
-		{"vectors", append([]string{""}, vectors...)}, {"vector_mutations", muts}, {"random", rnd}}
+		{"vectors", append([]string{""}, vectors...)}, {"vector_mutations", muts}, {"random", rnd}, {"long", long}}
 	seen := map[string]bool{}
 	for i := range fams {
 		var keep []string
